@@ -203,9 +203,9 @@ Proof.
 Qed.
 
 Lemma listing_test X T :
-  nospace X = true -> names_ok T -> chain_in_listing X (listing T) = is_some (find_chain X T).
+  nospace X = true -> aname X = true -> names_ok T -> chain_in_listing X (listing T) = is_some (find_chain X T).
 Proof.
-  intros HX HT. rewrite (chain_in_listing_spec T X HX HT). clear HT.
+  intros HX HA HT. rewrite (chain_in_listing_spec T X HX HA HT). clear HT.
   induction T as [|[n r0] T IH]; [reflexivity|]. cbn [existsb find_chain fst].
   destruct (bytes_eqb n X); [reflexivity | exact IH].
 Qed.
